@@ -416,6 +416,9 @@ def val_eq(a, b):
     if isinstance(a, (list, tuple)) and isinstance(b, (list, tuple)):
         if type(a) is not type(b) and (isinstance(a, tuple) != isinstance(b, tuple)):
             return False
+        from .seq import Chunk, list_term
+        if any(isinstance(x, Chunk) for x in a) or any(isinstance(x, Chunk) for x in b):
+            return simp(list_term(a) == list_term(b))
         if len(a) != len(b):
             return False
         cs = []
